@@ -2,7 +2,18 @@
     This file only pins statements: every theorem restates a lemma of proofs/ verbatim and is closed by it. *)
 From CacheD Require Import Base Sketch Model Window Micro.
 From CacheD.proofs Require Import Defs ApiProofs HistoryProofs StatsProofs.
-From CacheD.proofs Require Import MicroProofs MicroBound MicroLedger.
+From CacheD.proofs Require Import MicroProofs MicroBound MicroLedger MicroBoundAll.
+
+(** (C01 at every state of every micro schedule, no restriction on the events): while the worker has not panicked
+   and has never taken an UpdateWeight that asks for more than the free space (known finding D2), the total weight lies
+   between 0 and the cache weight - inside every window of put_or_update, of the worker's put, put with time-to-live and
+   Delete, and of shutdown() *)
+Theorem C01_micro_used_bounded_all :
+  forall cfg evs, c_debug cfg = true -> 0 <= c_max cfg ->
+  Forall (fun p => ~ mover_all cfg (fst p) (snd p)) (mvisits_all cfg (minit cfg) evs) ->
+  worker (mbase (mrun cfg evs)) <> Dead -> 0 <= used (mbase (mrun cfg evs)) <= c_max cfg.
+Proof. exact micro_used_bounded_all. Qed.
+Print Assumptions C01_micro_used_bounded_all.
 
 (** (C01 for every interleaving of the micro steps of puts, deletes and reads with each other and with whole
    worker commands, sweeps and batches): the total stays within [0, max] at every state, unless an UpdateWeight that
